@@ -100,10 +100,14 @@ func c26Tag(s *c27Share, tag string) string {
 	return coqList(alts)
 }
 
-type c26Stats struct{ structs, fields, depth int }
+type c26Stats struct {
+	structs, fields, depth int
+	names                  []string // Go names of the struct types met
+}
 
 func c26Struct(s *c27Share, t reflect.Type, depth int, st *c26Stats) string {
 	st.structs++
+	st.names = append(st.names, t.Name())
 	if depth > st.depth {
 		st.depth = depth
 	}
@@ -170,6 +174,17 @@ func c26Dump(rng *rand.Rand, n int, tier string, out string) (*Summary, error) {
 		st := &c26Stats{}
 		rt := reflect.TypeOf(rp.NewRoot()).Elem()
 		goTree := "(GN (MkG " + sh.str(rt.Name()) + " [] [] [] []) GStructPtr " + c26Struct(sh, rt, 0, st) + ")"
+		// the embedded schema has an entry for every generated struct (SchemaTree is what Validate,
+		// Unmarshal and the ytypes functions look the struct's schema up in)
+		if rp.SchemaTree != nil {
+			seenN := map[string]bool{}
+			for _, nm := range st.names {
+				if !seenN[nm] && rp.SchemaTree[nm] == nil {
+					sum.finding(Finding{Signature: "fits/schematree-entry-missing", What: "generated struct " + nm + " has no entry in the embedded schema (SchemaTree)", Input: p})
+				}
+				seenN[nm] = true
+			}
+		}
 		id := fmt.Sprintf("c26case_%d", len(cases))
 		fmt.Fprintf(&b, "Definition %s : gcase := {| gc_name := %s; gc_cb := %s; gc_om := %s; gc_opts := %s;\n gc_mods := %s;\n gc_go := %s |}.\n",
 			id, sh.str(p.Name), c26Behaviour(p), coqBool(p.OrderedMaps), c27Opts(sh, p), coqList(ms), goTree)
